@@ -1,6 +1,7 @@
 (* Statement pins for C06: compiled on every check run against the built .vo files. *)
 From SV Require Import Base.Prelude Model.Retry Model.Fiber.
 From SV Require Import Proofs.Retry_proofs Proofs.Fiber_proofs Proofs.C06_proofs.
+From SV Require Import Model.E2EAttempts Proofs.E2EAttempts_proofs.
 Open Scope Z_scope.
 From SV Require Import Props.C06.
 
@@ -150,6 +151,68 @@ Check C06_history_prop_ok :
 Check C06_trace_prop_ok :
   forall p idem cl0 plan outs tr r,
   fiber p idem cl0 plan outs = (tr, r) -> prop_trace_ok p idem (List.length plan) tr = true.
+Check C06_e2e_run :
+  forall p idem cl0 nodes down c frs tret o co,
+  check_single p idem cl0 nodes down c frs tret o co = true ->
+  exists tr r,
+    fiber p idem cl0 (c_plan c) (c_outs c) = (tr, r)
+    /\ Forall2 ev_obs (attempts tr) frs
+    /\ res_match r o = true /\ r <> RPending
+    /\ seq_ok frs = true
+    /\ NoDup (c_plan c) /\ incl (c_plan c) nodes
+    /\ (forall n, In n nodes -> In n (c_plan c) \/ In n down)
+    /\ (forall t, In t (conn_fail_targets tr) -> In t down)
+    /\ coord_match co r = true.
+Check C06_e2e_resend :
+  forall p idem cl0 nodes down c frs tret o co,
+  check_single p idem cl0 nodes down c frs tret o co = true ->
+  forall pre f g post, frs = pre ++ f :: g :: post ->
+  (exists e, f_ans f = AnsErr e /\ (idem = false -> safe_errorb e = true))
+  /\ (f_arr f <= f_done f)%N /\ (f_done f <= f_arr g)%N.
+Check C06_e2e_unsafe_final :
+  forall p cl0 nodes down c frs tret o co,
+  check_single p false cl0 nodes down c frs tret o co = true ->
+  forall pre f post e, frs = pre ++ f :: post -> f_ans f = AnsErr e -> named_unsafe_errorb e = true ->
+  post = [] /\ o = OFailed (LAttempt e).
+Check C06_e2e_bound :
+  forall p idem cl0 nodes down c frs tret o co,
+  check_single p idem cl0 nodes down c frs tret o co = true ->
+  (List.length frs <= List.length nodes + same_target_budget p)%nat.
+Check C06_e2e_consistency :
+  forall p idem cl0 nodes down c frs tret o co,
+  check_single p idem cl0 nodes down c frs tret o co = true ->
+  (forall f rest, frs = f :: rest -> f_cl f = cl0)
+  /\ (p <> PDowngrading -> Forall (fun f => f_cl f = cl0) frs).
+Check C06_e2e_serial_default :
+  forall idem cl0 nodes down c frs tret o co,
+  check_single PDefault idem cl0 nodes down c frs tret o co = true -> is_serial cl0 = true ->
+  (List.length frs <= 1)%nat.
+Check C06_e2e_gate :
+  forall p idem spec cl0 nodes down cs assign frs tret o co,
+  e2e_check p idem spec cl0 nodes down cs assign frs tret o co = true ->
+  (idem = false \/ spec = None) ->
+  exists c, cs = [c] /\ check_single p idem cl0 nodes down c frs tret o co = true
+            /\ forall t, (List.length (in_flight t frs) <= 1)%nat.
+Check C06_e2e_fibers :
+  forall p spec cl0 nodes down cs assign frs tret o co max,
+  e2e_check p true spec cl0 nodes down cs assign frs tret o co = true -> spec = Some max ->
+  (1 <= List.length cs <= 1 + max)%nat
+  /\ NoDup (concat (map c_plan cs)) /\ incl (concat (map c_plan cs)) nodes
+  /\ forall i c, nth_error cs i = Some c ->
+       exists tr r, fiber p true cl0 (c_plan c) (c_outs c) = (tr, r)
+                    /\ match_frames (c_free c) (attempts tr) (sub_frames i assign frs) = true
+                    /\ seq_ok (sub_frames i assign frs) = true
+                    /\ (forall t, In t (conn_fail_targets tr) -> In t down).
+Check C06_e2e_match :
+  forall evs frs,
+  (match_frames false evs frs = true -> Forall2 ev_obs evs frs) /\
+  (match_frames true evs frs = true ->
+     Forall2 ev_obs_free evs frs /\ Forall2 ev_obs (removelast evs) (removelast frs)).
+Check C06_e2e_prop_frames :
+  forall p idem spec cl0 nodes down c frs tret o co,
+  check_single p idem cl0 nodes down c frs tret o co = true ->
+  gate_open idem spec = None ->
+  prop_frames p idem spec (List.length nodes) frs = true.
 Print Assumptions C06_safe_set.
 Print Assumptions C06_named_unsafe_set.
 Print Assumptions C06_safe_resend.
@@ -178,3 +241,13 @@ Print Assumptions C06_ignore_only_idempotent.
 Print Assumptions C06_decide_prop_ok.
 Print Assumptions C06_history_prop_ok.
 Print Assumptions C06_trace_prop_ok.
+Print Assumptions C06_e2e_run.
+Print Assumptions C06_e2e_resend.
+Print Assumptions C06_e2e_unsafe_final.
+Print Assumptions C06_e2e_bound.
+Print Assumptions C06_e2e_consistency.
+Print Assumptions C06_e2e_serial_default.
+Print Assumptions C06_e2e_gate.
+Print Assumptions C06_e2e_fibers.
+Print Assumptions C06_e2e_match.
+Print Assumptions C06_e2e_prop_frames.
